@@ -69,9 +69,15 @@ type Obligation struct {
 	exec    *Exec
 	Extra   []*Term // additional assumptions specific to this obligation
 	Cover   bool    // satisfiability expected (vacuity check)
+	// loop-modular slice: assumptions [0,EntryN) and [LoopFrom,NAssume) - what was known at function entry plus what
+	// was assumed and derived since the head of the innermost enclosing loop (0: not inside a loop)
+	LoopFrom int
+	EntryN   int
 }
 
 type Exec struct {
+	entryAssumes int // assumptions in force before the body starts (axioms, requires, well-formedness of parameters)
+	oblLoopFrom  int // set while the invariants of a loop are checked at a back edge
 	axiomTerms map[*Term]string // package axioms among assumes (filtered by relevance when a query is printed)
 	P        *Program
 	Fn       *ssa.Function
@@ -139,6 +145,7 @@ type iterInfo struct {
 }
 
 type loopInfo struct {
+	assumeStart int // number of root assumptions when the loop head was havocked (loop-modular slice)
 	header     *ssa.BasicBlock
 	blocks     map[*ssa.BasicBlock]bool
 	ord        string
@@ -240,6 +247,22 @@ func (e *Exec) oblige(kind, detail string, cond *Term, props []string, src strin
 	r.counters[key]++
 	name := fmt.Sprintf("%s#%s:%d", FuncKey(r.Fn), key, r.counters[key])
 	o := &Obligation{Name: name, Kind: kind, Fn: FuncKey(r.Fn), Props: props, NAssume: len(r.assumes), Goal: goal, Pos: e.posOf(e.curInstr), Src: src, exec: r}
+	if e.inlineOf == nil {
+		o.EntryN = e.entryAssumes
+		if e.oblLoopFrom > 0 {
+			o.LoopFrom = e.oblLoopFrom
+		} else if e.curBlock != nil && kind != "post" && kind != "frame" {
+			var best *loopInfo
+			for _, li := range e.loops {
+				if li.blocks[e.curBlock] && li.assumeStart > 0 && (best == nil || len(li.blocks) < len(best.blocks)) {
+					best = li
+				}
+			}
+			if best != nil {
+				o.LoopFrom = best.assumeStart
+			}
+		}
+	}
 	r.obls = append(r.obls, o)
 	// later code may rely on it (program-point obligations only; postconditions stay independent of each other)
 	if kind == "safety" || kind == "pre" || kind == "inv-entry" {
@@ -420,6 +443,7 @@ func (e *Exec) run() {
 			}
 		}
 	}
+	e.entryAssumes = len(e.assumes)
 	e.execBody()
 	e.finish()
 }
